@@ -136,35 +136,59 @@ def _r032(ck, prog, cfg):
             n += 1
             i = src_of_operand(f, t["args"][1])
             key = "%s:shards[]#%d%s" % (f.id.replace(SA, ""), _ord(f, b), _tag(cfg))
-            ok = False
-            why = "index provenance not recognised (%s)" % i.path()
-            if i.kind == "call" and is_callee(i.term, r"sharded_actor::hash_key(_bytes)?$"):
-                ok = _num_shards_src(f, i.term["args"][1])
-                why = "hash reduced by something other than num_shards"
-                if ok:
-                    # the key that is hashed is the key that is sent (same root) for the direct single-key helpers
-                    hk = src_of_operand(f, i.term["args"][0], through_calls=TRANSPARENT + (r"Deref>::deref$", r"String::as_str$", r"AsRef<.*>>::as_ref$"))
-                    ck.extra.setdefault("hashed_keys", {})[key] = hk.path()
-            elif i.kind == "call" and is_callee(i.term, r"Enumerate<.*> as std::iter::Iterator>::next$") and i.fields[-2:] == ("0", "0"):
-                ok, why = _direct_enumerate(f, i.term)
-            elif i.kind == "call" and is_callee(i.term, r"hash_map::(IntoIter|Iter)<.*> as std::iter::Iterator>::next$"):
-                ok = _bucket_keys_from_hash(f)
-                why = "bucket map keys are not all produced by hash_key"
-            elif i.kind == "path" and f.kind == "closure" and i.local == 2 and i.fields[:1] == ("0",):
-                par = prog.fns.get(f.parent)
-                ok = par is not None and _bucket_keys_from_hash(par)
-                why = "closure maps over buckets whose keys are not all produced by hash_key"
-            elif i.kind == "const" and i.text == "0_usize":
-                ok = False
-                why = "constant shard 0 used outside the key-less fallback"
-                for g in lib2.guards(f, b):
-                    si = g["si"]
-                    if si and si["kind"] == "discr" and si["src"].kind == "call" and is_callee(si["src"].term, r"Command::get_primary_key$") \
-                            and (g["value"] == "0" or (g["value"] == "else" and "0" not in g["neg_values"])):
-                        ok = True
+            alts = [(i, b)]
+            if i.kind in ("multi", "path") and i.local is not None and i.local > f.d["argc"] and not i.fields and len(f.defs().get(i.local, [])) >= 2:
+                # `let idx = match key { Some(k) => hash_key(k, n), None => 0 };`: every alternative is judged where it is defined
+                alts = []
+                from .lib import Src
+                for (db, di, kind, payload) in f.defs().get(i.local, []):
+                    if kind == "call":
+                        alts.append((Src("call", term=payload, site=(db, di), local=i.local), db))
+                    elif kind == "assign" and payload["k"] == "use":
+                        alts.append((src_of_operand(f, payload["a"]), db))
+                    else:
+                        alts.append((Src("rv", rv=payload, site=(db, di), local=i.local), db))
+                n += len(alts) - 1
+            ok = True
+            why = ""
+            for ai, ab in alts:
+                ok1, why1 = _classify_index(prog, f, ai, ab, ck, key)
+                if not ok1:
+                    ok, why = False, why1
             ck.check(ok, "R03.2", key, "a shard is selected by an index that is not derived from the served key: %s" % why,
                      f.where(t["ln"]), detail="index = " + i.path()[:80])
     ck.floor("R03.2" + _tag(cfg), n, 13)
+
+
+def _classify_index(prog, f, i, b, ck, key):
+    ok = False
+    why = "index provenance not recognised (%s)" % i.path()
+    if i.kind == "call" and is_callee(i.term, r"sharded_actor::hash_key(_bytes)?$"):
+        ok = _num_shards_src(f, i.term["args"][1])
+        why = "hash reduced by something other than num_shards"
+        if ok:
+            # the key that is hashed is the key that is sent (same root) for the direct single-key helpers
+            hk = src_of_operand(f, i.term["args"][0], through_calls=TRANSPARENT + (r"Deref>::deref$", r"String::as_str$", r"AsRef<.*>>::as_ref$"))
+            ck.extra.setdefault("hashed_keys", {})[key] = hk.path()
+    elif i.kind == "call" and is_callee(i.term, r"Enumerate<.*> as std::iter::Iterator>::next$") and i.fields[-2:] == ("0", "0"):
+        ok, why = _direct_enumerate(f, i.term)
+    elif i.kind == "call" and is_callee(i.term, r"hash_map::(IntoIter|Iter)<.*> as std::iter::Iterator>::next$"):
+        ok = _bucket_keys_from_hash(f)
+        why = "bucket map keys are not all produced by hash_key"
+    elif i.kind == "path" and f.kind == "closure" and i.local == 2 and i.fields[:1] == ("0",):
+        par = prog.fns.get(f.parent)
+        ok = par is not None and _bucket_keys_from_hash(par)
+        why = "closure maps over buckets whose keys are not all produced by hash_key"
+    elif i.kind == "const" and i.text == "0_usize":
+        ok = False
+        why = "constant shard 0 used outside the key-less fallback"
+        for g in lib2.guards(f, b):
+            si = g["si"]
+            if si and si["kind"] == "discr" and si["src"].kind == "call" and is_callee(si["src"].term, r"Command::get_primary_key$") \
+                    and (g["value"] == "0" or (g["value"] == "else" and "0" not in g["neg_values"])):
+                ok = True
+
+    return ok, why
 
 
 def _ord(f, b):
